@@ -119,3 +119,36 @@ def register(reg):
     c.ensure("hdr:time", f"result.header.tsamp == self._header.tsamp and result.header.tstart == {T0}")
     c.ensure("hdr:dm", "result.header.dm == dm")
     reg.add(c)
+
+
+def register_stats(reg):
+    """compute_stats / compute_stats_basic: the accumulator is created for exactly the samples that are then pushed."""
+    ST = "sigpyproc/core/stats.py::"
+    bag = Obj("ChannelStats", file="sigpyproc/core/stats.py", fields={"_nchans": Int(1), "_nsamps": Int(), "pushed": Int(0)})
+    c = Contract(ST + "ChannelStats.push_data", props=["C06", "C10"], trusted=True,
+                 trusted_reason="call-site view of the accumulator: the kernels behind it are under contract in C10 "
+                                "(compute_online_moments*); here only the bookkeeping - a block of whole samples is added, "
+                                "and the first block (start_index == 0) is the one that initialises min/max",
+                 params={"self": bag, "array": Arr("real", None, view=True), "start_index": Int(), "mode": Opaque()},
+                 ghost_params={"nb": Int(0)},
+                 requires=["len(array) == nb * self._nchans", "(start_index == 0) == (self.pushed == 0)"],
+                 modifies=["self.pushed"])
+    c.ensure("pushed", "self.pushed == old(self.pushed) + nb")
+    reg.add(c)
+    done = "(N if _k0 == bK else boff(_k0))"
+    for name in ("compute_stats", "compute_stats_basic"):
+        c = Contract(no_unfold=True, key=B + "Filterbank." + name, props=["C06", "C10"], params=params(), lets=LETS,
+                     requires=RANGE, modifies=["self._chan_stats"], ghost_args={"ChannelStats.push_data": {"nb": "bn(_k0)"}}, **COMMON)
+        c.loops["0:__ii_data"] = LoopSpec([
+            ("accumulator", f"bag._nchans == nchans and bag._nsamps == N and bag.pushed == {done}")])
+        c.ensure("normalised by the samples read", "self._chan_stats._nsamps == N")
+        c.ensure("every sample pushed once", "self._chan_stats.pushed == N")
+        reg.add(c)
+
+
+_r_base = register
+
+
+def register(reg):  # noqa: F811
+    _r_base(reg)
+    register_stats(reg)
